@@ -169,6 +169,27 @@ class Ctx:
         shutil.rmtree(os.path.join(d, "meta"), ignore_errors=True)
         return res
 
+    def tlaps(self, module, timeout=600):
+        """Check a TLAPS proof module in a scratch copy; returns (obligations, proved)."""
+        d = os.path.join(self.work, "tlaps-" + module)
+        shutil.rmtree(d, ignore_errors=True)
+        os.makedirs(d)
+        for f in os.listdir(SPEC):
+            if f.endswith(".tla"):
+                shutil.copy(os.path.join(SPEC, f), d)
+        try:
+            r = subprocess.run(["timeout", str(timeout), "tlapm", "--threads", "8", module + ".tla"], cwd=d, capture_output=True, text=True)
+        except FileNotFoundError:
+            raise Infra("tlapm is not installed")
+        out = r.stdout + r.stderr
+        m = re.search(r"All (\d+) obligations? proved", out)
+        if m:
+            n = int(m.group(1))
+            self.cov["tlaps_" + module] = {"obligations": n, "discharged": n}
+            return n, n
+        m = re.search(r"(\d+)/(\d+) obligations? failed", out)
+        raise Infra("TLAPS proof %s not checked: %s" % (module, (m.group(0) if m else out[-600:])))
+
     def model_check(self, module, cfg_text, name=None, workers=8, timeout=1500, env=None, expect_violation=None):
         """Exhaustive run.  The properties must hold on the model (a model-level counterexample is an
         infrastructure problem of the spec for the *current* design switches, never a VIOLATION by itself).
